@@ -109,8 +109,12 @@ class Ctx:
         if op == "conv" and len(t.args) == 1:
             return self.lin(t.args[0])
         if op == "len":
+            first = t.id not in self.seen
             self.rng(t, 0, 2 ** (self.usize_bits - 1) - 1)
             v = t.args[0]
+            if first and v.op == "subset":
+                # in-place filtering / reordering never grows the vector
+                self.side.append(atom(t).add(self.lin(mk("len", v.args[0])), -1))
             return atom(t)
         if op == "int_of":
             w = window(t.args[0])
